@@ -147,7 +147,8 @@ Theorem timeslice_frame e span name r r' k :
 Proof.
   unfold timeslice_op. destruct (eval e (rdata r)) as [v| | |]; cbn [bind]; try discriminate.
   destruct v; try discriminate.
-  destruct (negb (in_i64 span) || (span <=? 0)%Z || negb (in_i64 ns)); try discriminate.
+  destruct (span <=? 0)%Z; try discriminate.
+  unfold mk_date. destruct (date_ok (ns - ns mod span)); cbn [bind]; try discriminate.
   intros H Hk. injection H as <-. split; [now apply rput_get_other | reflexivity].
 Qed.
 
